@@ -25,9 +25,9 @@ RULE = ("case = (scenario variant, injector kind); inside: every abort index; a 
         "monitor_counters: runs per injector, events and deliveries checked")
 ASSUMPTIONS = ["abort = OptimizationAborted(USER_ABORT) raised by user code (observer, handler or evaluator), as BasicOptimizer.set_abort_callback does"]
 REQUIRED = {"quick": {"abort_runs.observer": 400, "abort_runs.handler": 400, "abort_runs.evaluator": 150, "events_checked": 15000, "deliveries_checked": 60000,
-                      "streams_checked": 2000, "latch_checked": 900, "later_steps_refused": 300, "nested_abort_runs": 200, "three_level_abort_runs": 600, "plan_functions_refused_after_abort": 900, "further_step_tried_during_finish_event": 1200, "basic_optimizer_abort_runs": 24, "__nontrivial__": 900},
+                      "streams_checked": 2000, "latch_checked": 900, "later_steps_refused": 300, "nested_abort_runs": 200, "nested_plan_served_another_outer_plan_before": 100, "three_level_abort_runs": 600, "plan_functions_refused_after_abort": 900, "further_step_tried_during_finish_event": 1200, "basic_optimizer_abort_runs": 24, "__nontrivial__": 900},
             "thorough": {"abort_runs.observer": 5000, "abort_runs.handler": 5000, "abort_runs.evaluator": 2000, "events_checked": 200000, "deliveries_checked": 1000000,
-                         "streams_checked": 25000, "latch_checked": 12000, "later_steps_refused": 6000, "nested_abort_runs": 4000, "three_level_abort_runs": 7000, "plan_functions_refused_after_abort": 10000, "further_step_tried_during_finish_event": 14000, "basic_optimizer_abort_runs": 200, "__nontrivial__": 12000}}
+                         "streams_checked": 25000, "latch_checked": 12000, "later_steps_refused": 6000, "nested_abort_runs": 4000, "nested_plan_served_another_outer_plan_before": 1500, "three_level_abort_runs": 7000, "plan_functions_refused_after_abort": 10000, "further_step_tried_during_finish_event": 14000, "basic_optimizer_abort_runs": 200, "__nontrivial__": 12000}}
 N = {"quick": 48, "thorough": 600}
 SCENARIOS = ["optimizer", "evaluator", "sequential", "nested", "nested3"]
 
@@ -54,8 +54,11 @@ class World:
         self.probe_sources = ()
         self.probe_outcome = None
         self.abort_in_evaluator = False
+        self.muted = False
 
     def see(self, event, party, party_kind, first_of_kind):
+        if self.muted:
+            return
         pos = self.index.get(id(event))
         if pos is None:
             pos = len(self.events)
@@ -223,6 +226,20 @@ def build(scenario, rng, world, raise_at):
         ospec = dict(spec)
         ospec["mask"] = [True, False]
         ospec["optimizer"] = dict(spec["optimizer"], max_functions=3)
+        if rng.random() < 0.5:
+            # the nested plan object has served another outer plan before: its events now go to the handlers of the plan that
+            # runs it now, and to nobody else's
+            decoy = Plan(ctx)
+            for n in range(2):
+                decoy.add_handler("verifrec/recorder", tag=f"h:decoy:{n}", first=(n == 0))
+            sd = decoy.add_step("optimizer")
+            saved, ev.raise_at, world.muted = ev.raise_at, {}, True
+            try:
+                decoy.run_step(sd, config=ens.make_config_dict(dict(ospec, nan=[])), nested_optimization=inner)
+            finally:
+                ev.raise_at, world.muted = saved, False
+                del ev.calls[:]
+            world.decoy_used = True
         so = main.add_step("optimizer")
         step_plan[so] = "main"
         s2 = main.add_step("evaluator")
@@ -475,6 +492,8 @@ def run_case(case, obs):
         obs.count("abort_runs." + inj)
         if scenario == "nested":
             obs.count("nested_abort_runs")
+            if getattr(w, "decoy_used", False):
+                obs.count("nested_plan_served_another_outer_plan_before")
         if scenario == "nested3":
             obs.count("three_level_abort_runs")
         obs.nontrivial(case["i"], scenario, inj, k)
